@@ -291,29 +291,42 @@ func (s *shard) search(ctx context.Context, q index.Query, orderBy *propertyv1.Q
 		}()
 	}
 	if orderBy == nil {
-		ss, searchErr := s.store.Search(ctx, projection, q, limit)
-		if searchErr != nil {
-			return nil, searchErr
-		}
-
-		if len(ss) == 0 {
-			return nil, nil
-		}
-		data = make([]*queryProperty, 0, len(ss))
-		for _, s := range ss {
-			bytes := s.Fields[sourceField]
-			var deleteTime int64
-			if s.Fields[deleteField] != nil {
-				deleteTime = convert.BytesToInt64(s.Fields[deleteField])
+		// The limit counts live properties only: the tombstoned revisions are returned for the
+		// reconciliation between replicas, but they must not crowd live properties out of the result.
+		// Widen the search until enough live properties are found or the index is exhausted.
+		fetch := limit
+		for {
+			ss, searchErr := s.store.Search(ctx, projection, q, fetch)
+			if searchErr != nil {
+				return nil, searchErr
 			}
-			data = append(data, &queryProperty{
-				id:         s.Key.EntityValues,
-				timestamp:  s.Timestamp,
-				source:     bytes,
-				deleteTime: deleteTime,
-			})
+
+			if len(ss) == 0 {
+				return nil, nil
+			}
+			data = make([]*queryProperty, 0, len(ss))
+			live := 0
+			for _, s := range ss {
+				bytes := s.Fields[sourceField]
+				var deleteTime int64
+				if s.Fields[deleteField] != nil {
+					deleteTime = convert.BytesToInt64(s.Fields[deleteField])
+				}
+				if deleteTime <= 0 {
+					live++
+				}
+				data = append(data, &queryProperty{
+					id:         s.Key.EntityValues,
+					timestamp:  s.Timestamp,
+					source:     bytes,
+					deleteTime: deleteTime,
+				})
+			}
+			if fetch <= 0 || live >= limit || len(ss) < fetch {
+				return data, nil
+			}
+			fetch *= 2
 		}
-		return data, nil
 	}
 	order := &index.OrderBy{
 		Index: &databasev1.IndexRule{
